@@ -382,6 +382,8 @@ Inductive event :=
 | EvTimeout (label : nat) (c : choices)  (* ... times out *)
 | EvAdvance (ms : Z)                     (* the clock moves *)
 | EvCancel                               (* ares_cancel *)
+| EvTruncated (label : nat) (c : choices)
+                                         (* the UDP attempt of user query [label] is answered with TC *)
 | EvConnLost (addr : Z) (cs : list choices)
                                          (* the connection to [addr] fails or is closed by the peer *)
 | EvSetServers (addrs : list Z) (cs : list choices).
@@ -428,6 +430,18 @@ Definition step (ch : chan) (ev : event) : outcome (chan * list obs) :=
     Ok (set_inflight (set_servers ch l) [],
         map (fun a => ODone (at_label a) ARES_ECANCELLED)
             (sort_by_label (filter (fun a => negb (at_probe a)) (ch_inflight ch))))
+  | EvTruncated label c =>
+    (* process_answer: query->using_tcp = TRUE; ares_append_requeue(requeue, query, NULL): no
+       failure is recorded, the try counter is not incremented, and the query is sent again
+       through ares_send_query(NULL, ...), i.e. with a FRESH selection of the server.  (A probe
+       copy takes the same path and thereby leaves the server it was meant to test - open finding
+       probe-moved - which is outside this model.) *)
+    match find_attempt label (ch_inflight ch) with
+    | None => Err Unsupported
+    | Some a =>
+      if at_probe a then Err Unsupported
+      else send_fresh (set_inflight ch (remove_attempt label (ch_inflight ch))) label (at_try a) (at_err a) c
+    end
   | EvConnLost a cs =>
     (* read_conn_packets reports the failed read (recv() == 0 included), read_answers then calls
        handle_conn_error(conn, critical_failure = TRUE, ARES_ECONNREFUSED): the server is demoted
